@@ -4,12 +4,11 @@ CONSTANTS
   Keys = {"a", "b"}
   FixUnique = FALSE
   FixProto = FALSE
-  FixRollback = FALSE
   FixSetter = FALSE
+  FixRollback = FALSE
   H = 3
   CatSel = {1, 2, 3, 4, 5, 6, 7, 8, 9, 10, 11}
   Wide = FALSE
-INVARIANT TypeOK
 INVARIANT Transparent
 INVARIANT ShapeDenotes
 CHECK_DEADLOCK FALSE
